@@ -2,7 +2,7 @@
 import ast
 
 from ..fold import NotConst, Symbol
-from ..model import AnalysisError, U, walk_no_nested, parent
+from ..model import AnalysisError, U, walk_no_nested, parent, ancestors
 
 EXACT_SLOTS = ("_weeks", "_days", "_hours", "_minutes", "_seconds")
 UNIT_SLOTS = ("_years", "_months", "_days", "_hours", "_minutes", "_seconds")
@@ -311,45 +311,72 @@ def r16_eq_hash(ctx):
                       "get_hour_minute_second()/get_second_of_day()" % (
                           raw or getters), P02)
     if cmpf is not None:
-        lists = [n for n in walk_no_nested(cmpf.node)
-                 if isinstance(n, ast.Assign) and isinstance(
-                     n.value, (ast.List, ast.Tuple)) and any(
-                         isinstance(e, ast.Call) for e in n.value.elts)]
+        # every key projection applied to the operands inside _cmp: calls of
+        # the canonical getters and loads of raw fields, grouped by the
+        # block they stand in and by receiver.  A receiver bound by
+        # iterating over a literal pair stands for both operands.
+        both = set()
+        for n in ast.walk(cmpf.node):
+            gens = getattr(n, "generators", None)
+            for g in gens or ():
+                if isinstance(g.iter, (ast.Tuple, ast.List)) and len(
+                        g.iter.elts) == 2:
+                    both |= {x.id for x in ast.walk(g.target)
+                             if isinstance(x, ast.Name)}
+                elif isinstance(g.iter, ast.Name) or (
+                        isinstance(g.iter, ast.Call) and U(g.iter.func)
+                        == "zip"):
+                    both |= {x.id for x in ast.walk(g.target)
+                             if isinstance(x, ast.Name)}
+            if isinstance(n, ast.For) and isinstance(
+                    n.iter, (ast.Tuple, ast.List)) and len(n.iter.elts) == 2:
+                both |= {x.id for x in ast.walk(n.target)
+                         if isinstance(x, ast.Name)}
+        blocks = {}
+        raw_used = []
+        for x in ast.walk(cmpf.node):
+            if not (isinstance(x, ast.Attribute) and isinstance(
+                    x.ctx, ast.Load)):
+                continue
+            par = parent(x)
+            is_call = isinstance(par, ast.Call) and par.func is x
+            if x.attr in RAW_TIME | RAW_DATE and not is_call:
+                raw_used.append(x.attr)
+                continue
+            if not (is_call and x.attr in CANON_TIME | CANON_DATE):
+                continue
+            recv = U(x.value)
+            blk = None
+            for a in ancestors(x):
+                pa = parent(a)
+                if isinstance(a, ast.stmt) and pa is not None:
+                    for fld in ("body", "orelse", "finalbody"):
+                        if a in (getattr(pa, fld, None) or []):
+                            blk = (id(pa), fld)
+                    break
+            blocks.setdefault(blk, {}).setdefault(recv, []).append(x.attr)
         shapes = []
-        for n in lists:
-            shape = []
-            for e in n.value.elts:
-                inner = e.value if isinstance(e, ast.Starred) else e
-                if isinstance(inner, ast.Call) and isinstance(
-                        inner.func, ast.Attribute):
-                    shape.append("call:" + inner.func.attr)
-                elif isinstance(inner, ast.Name):
-                    # a date tuple obtained from a getter
-                    ds = [d for d in walk_no_nested(cmpf.node)
-                          if isinstance(d, ast.Assign) and any(
-                              U(t) == inner.id for t in d.targets)]
-                    gs = sorted({d.value.func.attr for d in ds if isinstance(
-                        d.value, ast.Call) and isinstance(
-                            d.value.func, ast.Attribute)})
-                    shape.append("date:" + "/".join(gs))
-                elif isinstance(inner, ast.Attribute):
-                    shape.append("raw:" + inner.attr)
-                else:
-                    shape.append("?")
-            shapes.append(shape)
-        if shapes:
-            same = all(s == shapes[0] for s in shapes)
-            canon = all(all(
-                (p.startswith("call:") and p[5:] in CANON_TIME | CANON_DATE)
-                or (p.startswith("date:") and set(p[5:].split("/")) <=
-                    CANON_DATE) for p in s) for s in shapes)
-            rep.check(same and canon and len(shapes) >= 2, rule,
+        same = True
+        for blk, by_recv in blocks.items():
+            singles = {r: sorted(g) for r, g in by_recv.items()
+                       if r not in both}
+            shapes.append({r: sorted(g) for r, g in by_recv.items()})
+            if singles and (len(singles) != 2 or len(
+                    {tuple(g) for g in singles.values()}) != 1):
+                same = False
+        allg = [g for b in blocks.values() for gs in b.values() for g in gs]
+        if allg or raw_used:
+            canon = not raw_used and any(g in CANON_TIME for g in allg) \
+                and any(g in CANON_DATE for g in allg)
+            rep.check(same and canon, rule,
                       ctx.fkey(cmpf, None, "key-shape"), cmpf.loc(),
-                      "both comparison keys are (date getter..., "
-                      "second-of-day) built the same way: %s" % shapes[0],
-                      "TimePoint._cmp builds its two keys as %s: both must "
-                      "use the same date getter and a precision-independent "
-                      "time getter" % shapes, P02)
+                      "both operands are projected by the same date getter "
+                      "and a precision-independent time getter: %s" % shapes,
+                      "TimePoint._cmp projects its operands as %s%s: both "
+                      "keys must use the same date getter and a "
+                      "precision-independent time getter" % (
+                          shapes, (" and reads raw fields %s" % raw_used)
+                          if raw_used else ""), P02)
         else:
             rep.error("R16", "TimePoint._cmp: comparison keys not found")
     for bad in ("__ne__", "__cmp__"):
